@@ -1318,7 +1318,7 @@ def __is_private(method_name: str) -> bool:
 __NAME_MANGLED_PATTERN = re.compile(r"^_[A-Za-z][A-Za-z0-9]*__\w+$")
 
 
-def __is_name_mangled(name: str) -> bool:
+def __is_name_mangled(name: str, owner: str | None = None) -> bool:
     """Checks whether ``name`` looks like a name-mangled private attribute.
 
     Python mangles a class-private name ``__attr`` defined in class ``Foo`` to
@@ -1333,10 +1333,14 @@ def __is_name_mangled(name: str) -> bool:
     Returns:
         True, if the name looks like a name-mangled private attribute.
     """
+    if owner is not None:
+        # The owning class is known: ``__attr`` written in class ``Foo`` becomes ``_Foo__attr``
+        # (leading underscores of the class name are stripped).
+        return name.startswith(f"_{owner.lstrip('_')}__") and not name.endswith("__")
     return bool(__NAME_MANGLED_PATTERN.fullmatch(name)) and not name.endswith("__")
 
 
-def __should_skip_by_visibility(name: str, *, add_to_test: bool) -> bool:
+def __should_skip_by_visibility(name: str, *, add_to_test: bool, owner: str | None = None) -> bool:
     """Determines whether an element should be skipped based on its visibility.
 
     Args:
@@ -1355,9 +1359,20 @@ def __should_skip_by_visibility(name: str, *, add_to_test: bool) -> bool:
         case ElementVisibility.ALL:
             return False
         case ElementVisibility.PROTECTED:
-            return __is_private(name) or __is_name_mangled(name)
+            return __is_private(name) or __is_name_mangled(name, owner)
         case _:
             return __is_private(name) or __is_protected(name)
+
+
+def __is_ignored_method(type_info: TypeInfo, method_name: str) -> bool:
+    """Is the method listed in ``ignore_methods`` (as written or in its mangled form)?"""
+    names = {method_name}
+    prefix = f"_{type_info.name.lstrip('_')}__"
+    if method_name.startswith(prefix):
+        names.add(method_name.removeprefix(prefix[:-2]))
+    return any(
+        f"{type_info.full_name}.{name}" in config.configuration.ignore_methods for name in names
+    )
 
 
 def __is_method_defined_in_class(class_: type | types.UnionType, method: object) -> bool:
@@ -1427,6 +1442,15 @@ def __analyse_function(
     test_cluster: ModuleTestCluster,
     add_to_test: bool,
 ) -> None:
+    if getattr(func, "__name__", None) == "<lambda>":
+        lambda_assigned_name = _get_lambda_assigned_name(module_tree, func.__code__.co_firstlineno)
+        if lambda_assigned_name is None:
+            # If the lambda itself has no name, we must not add it to the test cluster
+            # or else it will cause an exception during test export.
+            return
+        if f"{func.__module__}.{lambda_assigned_name}" in config.configuration.ignore_methods:
+            return
+        func_name = lambda_assigned_name
     if __should_skip_by_visibility(func_name.rpartition(".")[2], add_to_test=add_to_test):
         LOGGER.debug("Skipping function %s from analysis", func_name)
         return
@@ -1453,15 +1477,7 @@ def __analyse_function(
     expected_exceptions = description.raises if description is not None else set()
     cyclomatic_complexity = __get_mccabe_complexity(func_ast)
     if getattr(func, "__name__", None) == "<lambda>":
-        if lambda_assigned_name := _get_lambda_assigned_name(
-            module_tree, func.__code__.co_firstlineno
-        ):
-            func_name = lambda_assigned_name
-            func.__name__ = lambda_assigned_name
-        else:
-            # If the lambda itself has no name, we must not add it to the test cluster
-            # or else it will cause an exception during test export.
-            return
+        func.__name__ = func_name
 
     generic_function = GenericFunction(func, inferred_signature, expected_exceptions, func_name)
 
@@ -1580,6 +1596,15 @@ def __analyse_class(
         LOGGER.error("Could not get members for class %s: %s", type_info.full_name, str(ex))
         return
 
+    if issubclass(type_info.raw_type, enum.Enum):  # type: ignore[arg-type]
+        # EnumType.__dir__ does not list methods, so getmembers() misses the ones defined here.
+        found = {name for name, _ in methods_with_names}
+        methods_with_names += sorted(
+            (name, member)
+            for name, member in vars(type_info.raw_type).items()
+            if inspect.isfunction(member) and name not in found
+        )
+
     for method_name, method in methods_with_names:
         __analyse_method(
             type_info=type_info,
@@ -1686,9 +1711,12 @@ def __analyse_method(
 ) -> None:
     if (
         __is_annotate(method_name)
-        or __should_skip_by_visibility(method_name.rpartition(".")[2], add_to_test=add_to_test)
+        or __should_skip_by_visibility(
+            method_name.rpartition(".")[2], add_to_test=add_to_test, owner=type_info.name
+        )
         or __is_constructor(method_name)
         or not __is_method_defined_in_class(type_info.raw_type, method)
+        or __is_ignored_method(type_info, method_name)
     ):
         LOGGER.debug("Skipping method %s from analysis", method_name)
         return
